@@ -67,6 +67,11 @@ func (g *partialStructGen) GenerateType(c gengo.Context, named *types.Named) err
 		for _, spec := range d.Specs {
 			switch x := spec.(type) {
 			case *ast.TypeSpec:
+				// a parenthesised group holds several declarations: look at the one being generated
+				if x.Name.Pos() != named.Obj().Pos() {
+					continue
+				}
+
 				switch x := x.Type.(type) {
 				case *ast.Ident:
 					switch x := pkg.ObjectOf(x).(type) {
